@@ -20,15 +20,15 @@ def colsWith (m : Mat) (s0 s1 : Nat) (a b : Int) : List Nat :=
   (List.range ((m.headD []).length)).filter (fun j => matGet m s0 j == a && matGet m s1 j == b)
 
 /-- one attempt: rows (s0, s1); `pick0`, `pick1` index into the candidate column lists.
-    Returns `none` when the pair admits no checkerboard (the code draws again). -/
+    Returns `none` when the pair admits no checkerboard (the code draws again); a pick outside the
+    candidate list cannot come from `prng.choice` and is treated the same way. -/
 def swapAttempt (m : Mat) (s0 s1 pick0 pick1 : Nat) : Option Mat :=
   let c0 := colsWith m s0 s1 1 0
   let c1 := colsWith m s0 s1 0 1
-  if c0.isEmpty || c1.isEmpty then none
-  else
-    let p0 := c0.getD pick0 0
-    let p1 := c1.getD pick1 0
+  match c0[pick0]?, c1[pick1]? with
+  | some p0, some p1 =>
     some (matSet (matSet (matSet (matSet m s0 p0 0) s0 p1 1) s1 p0 1) s1 p1 0)
+  | _, _ => none
 
 structure Attempt where
   s0 : Nat
